@@ -376,14 +376,18 @@ def state_task(task):
                     count("elliptic(coset)")
             cnt["__notes__"] = dict(NOTES)
             return out, cnt
+        far = bool(obs.get("far"))        # far conjugator: only the loxodromic data is specified
         # the state itself: accepted by from_reflection iff the spec says it is a reflection
-        if obs["isrefl"]:
+        if far:
+            pass
+        elif obs["isrefl"]:
             rec("self", accept_reflection(H, g, n, obs["normal"], [], tol))
             count("from_reflection(accept)")
         else:
             rec("self", expect_rejected(H, g, "a non-reflection word"))
             count("from_reflection(reject)")
         conj = {}
+        members = {"R": [], "E": [], "L": [], "P": [], "I": []}       # derived isometries by kind, for the stacks
 
         def neg(C):
             """the same isometry given by the matrix -M (the sheet-exchanging representative)"""
@@ -391,18 +395,20 @@ def state_task(task):
 
         def tagged(bads):
             return [(c, "[representative -M] " + d) for c, d in bads]
-        for t, E in lib["ell"].items():
+        for t, E in ([] if far else lib["ell"].items()):
             C = g @ E @ gi
+            members["E"].append((C, None))
             rec("E%r" % (t,), elliptic_obligations(H, C, n, obs["origin"], obs["perp"], tol, n == 2))
             rec("E%r" % (t,), expect_rejected(H, C, "a conjugate of a rotation"))
             if -1 in targets.get("reps", []):
                 rec("E%r" % (t,), tagged(elliptic_obligations(H, neg(C), n, obs["origin"], obs["perp"], tol, n == 2)))
             count("elliptic")
-        for k in targets.get("invol", []):
+        for k in ([] if far else targets.get("invol", [])):
             # an involution of determinant -1 whose (-1)-eigenspace has dimension k > 1: not a reflection
             blk = np.eye(n)
             blk[n - k:, n - k:] = -np.eye(k)
             C = g @ H.Isometry.elliptic(n, blk) @ gi
+            members["I"].append((C, None))
             rec("I(%d)" % k, expect_rejected(H, C, "a conjugate of the involution negating %d spatial coordinates" % k))
             count("involution(reject)")
         for L in obs["lox"]:
@@ -413,18 +419,45 @@ def state_task(task):
             if -1 in targets.get("reps", []):
                 rec("L(%d/%d)" % (L["p"], L["q"]), tagged(loxodromic_obligations(H, neg(C), n, L["attr"], L["rep"], tol * lam)))
             conj[(L["p"], L["q"])] = C
-            count("loxodromic")
-        for k, P in lib["para"].items():
+            members["L"].append((C, None))
+            count("loxodromic(far conjugator)" if far else "loxodromic")
+        for k, P in ([] if far else lib["para"].items()):
             C = g @ P @ gi
+            members["P"].append((C, None))
             rec("P(%d)" % k, parabolic_obligations(H, C, n, obs["para"], PARA_TOL * size))
             rec("P(%d)" % k, expect_rejected(H, C, "a conjugate of a parabolic"))
             count("parabolic")
-        for r in obs["refl"]:
+        for r in ([] if far else obs["refl"]):
             C = g @ refl_of(n, r["v"]) @ gi
+            members["R"].append((C, r["normal"]))
             sub = "R%r" % (tuple(r["v"]),)
             rec(sub, reflection_obligations(H, C, n, r["normal"], r["wallpts"], tol))
             rec(sub, accept_reflection(H, C, n, r["normal"], r["ends"], tol))
             count("reflection(conjugate)")
+        # stacks handed to from_reflection: accepted iff EVERY member is a reflection (the spec's table of kinds)
+        for si, st in enumerate([] if far else targets.get("stacks", [])):
+            kinds = st["kinds"]
+            if any(not members[k] for k in kinds):
+                continue
+            chosen = [members[k][(si + i) % len(members[k])] for i, k in enumerate(kinds)]
+            sub = "stack[%s]" % ",".join(kinds)
+            try:
+                S = H.Isometry(np.stack([real_array(C.matrix, "matrix") for C, _ in chosen]))
+                if not st["accept"]:
+                    rec(sub, expect_rejected(H, S, "a stack of kinds %s (R = reflection)" % "".join(kinds)))
+                else:
+                    hp = H.Hyperplane.from_reflection(S)
+                    sv = real_array(hp.spacelike_vector, "stack normals")
+                    if sv.shape != (len(kinds), n + 1):
+                        out.append((sub, "stack.from_reflection_shape", "normals shape %r" % (sv.shape,)))
+                    else:
+                        for i, (_, u) in enumerate(chosen):
+                            if not hc.proj_close(sv[i], np.array(u, float), tol):
+                                out.append((sub, "stack.from_reflection_wall", "member %d: normal %r, spec wall %r" % (i, sv[i].tolist(), u)))
+                                break
+            except Exception as e:
+                out.append((sub, "stack.raised", "%s: %s" % (type(e).__name__, e)))
+            count("from_reflection(stack %s)" % ("accept" if st["accept"] else "reject"))
         # composite isometry: the loxodromic conjugates of this state as one array, under the spec's history of
         # queries and item assignments; every query must report what the CURRENT array determines
         if obs.get("arr") and len(conj) >= 2:
@@ -779,6 +812,33 @@ def coxeter(run, n, r):
                 bad = [("raised", "%s: %s" % (type(e).__name__, e))]
             for clause, detail in bad:
                 run.violation(key, clause, dict(group=m, word=w, observed=detail))
+        for st in tab.get("stacks", []):
+            key = "cox:%s:stack:%s" % (name, "|".join("".join(map(str, w)) or "e" for w in st["words"]))
+            run.case(key=key, action="from_reflection(coxeter stack %s)" % ("accept" if st["accept"] else "reject"))
+            try:
+                stacks = [("stacked matrices", H.Isometry(np.stack([real_array(iso_of(w).matrix, "matrix") for w in st["words"]])))]
+                if all(len(w) for w in st["words"]):
+                    stacks.append(("rep.isometries", rep.isometries(["".join(hc.cox_gen_name(i) for i in w) for w in st["words"]])))
+                bad = []
+                for how, S in stacks:
+                    if not st["accept"]:
+                        bad += [(c, how + ": " + d) for c, d in expect_rejected(H, S, "a stack of Coxeter words containing a non-reflection")]
+                        continue
+                    hp = H.Hyperplane.from_reflection(S)
+                    sv = real_array(hp.spacelike_vector, "stack normals")
+                    Sm = real_array(S.matrix, "stack matrices")
+                    if sv.shape != (len(st["words"]), n + 1):
+                        bad.append(("stack.from_reflection_shape", "%s: normals shape %r" % (how, sv.shape)))
+                        continue
+                    for i in range(len(sv)):
+                        x = sv[i] / np.linalg.norm(sv[i])
+                        if not (nnorm(x) > 1e-9 and np.abs(x @ upper(Sm[i]) + x).max() <= tol):
+                            bad.append(("stack.from_reflection_wall", "%s: member %d: normal %r is not negated by its reflection" % (how, i, sv[i].tolist())))
+                            break
+            except Exception as e:
+                bad = [("stack.raised", "%s: %s" % (type(e).__name__, e))]
+            for clause, detail in bad:
+                run.violation(key, clause, dict(group=m, words=st["words"], observed=detail))
         for p in G["pairs"]:
             key = "cox:%s:pair:%d%d" % (name, p["i"], p["j"])
             run.case(key=key, action="fixed_point(coxeter %s)" % p["type"])
@@ -834,6 +894,12 @@ def run(run, replay=None):
         "{2, 1/2, 3/2, 11/10, 5, 1/4}, parabolics R_(k,k,1) R_(0,0,1) (k = 1, -1, 2), reflections in 3-5 normals, and (n >= 3) the "
         "involution negating 3 spatial coordinates (determinant -1, not a reflection: must be rejected); Rich = FALSE (quick n = 3, 4) "
         "uses half of each list",
+        "far conjugators: a translation of length ln 20, ln 55, ln 148, ln 403 (3..6; quick n >= 3: ln 20 and ln 403) along the first "
+        "axis after at most one origin-fixing letter, optionally followed by a quarter turn or a coordinate swap; for these only "
+        "the loxodromic conjugates (incl. -M and the composite history) are specified; tolerance 1e-9 * |g|^2 * lambda as elsewhere",
+        "stacks handed to from_reflection: every ordered pair of kinds {R, E, L, P, I} of derived isometries of a state and the "
+        "triples RRR, RkR, kRk: accepted iff every member is a reflection (then each returned wall is the member's wall); the same "
+        "for stacks of Coxeter words (stacked matrices and rep.isometries)",
         "every elliptic and loxodromic conjugate is also handed over as the matrix -M (the other representative of the same "
         "projective map): the reported fixed points must be the same",
         "composite isometries: the array of the loxodromic conjugates of a state under the spec's history query, [0] = other, query, "
@@ -874,12 +940,12 @@ def run(run, replay=None):
         for n, (wb, L) in planB.items():
             c = core.cfg(constants=dict(N=n, MaxLen=L, WB=wb, Rich=False), init="InitWall", next_="NextWall",
                          invariants=["WallLaws", "ObsWall"], view="ViewFix", action_constraints=["EmitFix"])
-            jobs[("B", n)] = ex.submit(run.tlc, "hyp/HypFix.tla", c, name="HypFix_wall_n%d" % n, workers=wB, timeout=1500)
+            jobs[("B", n)] = ex.submit(run.tlc, "hyp/HypFix.tla", c, name="HypFix_wall_n%d" % n, workers=min(wB, core.NCPU), timeout=1500)
         for n, L, rich in planA:
             c = core.cfg(constants=dict(N=n, MaxLen=L, WB=1, Rich=rich), init="InitFix", next_="NextFix",
-                         invariants=["FixLaws", "FormPreserved", "Normalised", "ObsFix"], view="ViewFix", action_constraints=["EmitFix"])
+                         invariants=["FixLaws", "FarLaws", "FormPreserved", "Normalised", "ObsFix"], view="ViewFix", action_constraints=["EmitFix"])
             jobs[("A", n, L, rich)] = ex.submit(run.tlc, "hyp/HypFix.tla", c, name="HypFix_fix_n%d_len%d%s" % (n, L, "_rich" if rich else ""),
-                                                workers=wA, timeout=1500)
+                                                workers=min(wA, core.NCPU), timeout=1500)
         for n in planB:
             res[("B", n)] = jobs[("B", n)].result()
             t1 = time.time()
